@@ -222,9 +222,30 @@ def cli_flag(ctx, violations):
                  # refused by the value parser (Feat.v: None): clap ends the process with status 2 before anything is read
                  (["-f", "stack,stack"], None), (["-f", "Stack"], None), (["-f", " stack"], None), (["-f", "stack,heap"], None),
                  (["--features", "heap"], None), (["-f", "stack,,stack"], None)]
+    # the same two programs as pre-assembled IMAGES (.lc3 / .obj): the gate must behave on the image as on the source,
+    # through `lace run FILE` and the bare `lace FILE` form
+    import shutil
+    clicommon.run_cli(exe, ["compile", "raw.asm", "raw.lc3"], d)
+    clicommon.run_cli(exe, ["compile", "s.asm", "simg.lc3", "-f", "stack"], d)
+    for nm in ("raw", "simg"):
+        if os.path.exists(os.path.join(d, nm + ".lc3")):
+            shutil.copy(os.path.join(d, nm + ".lc3"), os.path.join(d, nm + ".obj"))
     ref = None
     runs = bad = 0
     for flags, on in spellings:
+        img = []
+        for form in (["run"], []):
+            for f in ("raw.lc3", "raw.obj", "simg.lc3", "simg.obj"):
+                rc_i, so_i, se_i = clicommon.run_cli(exe, form + [f, "--minimal"] + flags, d)
+                runs += 1
+                want = 2 if on is None else (0 if on else 1)
+                okk = rc_i == want and (not (on and f.startswith("simg")) or "ok" in so_i.decode("utf-8", "replace"))
+                if not okk:
+                    img.append({"form": " ".join(form + [f]), "exit": rc_i, "expected_exit": want, "stderr": se_i.decode("utf-8", "replace")[-200:]})
+        if img:
+            bad += 1
+            if bad <= 4:
+                violations.append({"kind": "flag-on-image", "flags": flags, "feature_expected_on": on, "runs": img[:4]})
         out = os.path.join(d, "o%d.lc3" % runs)
         if os.path.exists(out):
             os.remove(out)
@@ -251,7 +272,7 @@ def cli_flag(ctx, violations):
                                    "reference_bytes": ref.hex() if ref else None, "run_exit": rc_run, "raw_0xD_run_exit": rc_raw,
                                    "check_output": text[-300:]})
     return {"runs": runs, "spellings": len(spellings), "mismatches": bad,
-            "rule": "real binary: check / compile / run of an extension source and run of an image reaching a 0xD word, for 17 ways of writing (or not writing, or miswriting) the feature list"}
+            "rule": "real binary: check / compile / run of an extension source, run of a source reaching a 0xD data word, and run (both `lace run FILE` and bare `lace FILE`) of the pre-assembled .lc3 / .obj IMAGES of both, for 17 ways of writing (or not writing, or miswriting) the feature list"}
 
 
 def replay(ctx, payload):
